@@ -844,6 +844,8 @@ class FragmentSender(object):
         # the wire payload of each fragment: header (id, index, count) + data
         self.payloads = []
         self.acks = []
+        # number of fragments that are neither acked nor given up
+        self.unresolved = 0
 
     def build(self, payload):
 
@@ -863,6 +865,7 @@ class FragmentSender(object):
                 payload = payload[Packet.MAX_FRAGMENT_SIZE:]
 
         self.acks = [None] * len(self.fragments)
+        self.unresolved = len(self.fragments)
 
         for index, fragment in enumerate(self.fragments):
 
@@ -880,7 +883,15 @@ class FragmentSender(object):
             cbk = lambda success, idx=index: self.callback(idx, success)
             self.conn._send_type(PacketType.APP_FRAGMENT, self.payloads[index], self.retry, cbk)
         else:
+            if self.acks[index] is None:
+                self.unresolved -= 1
             self.acks[index] = success
+            if self.unresolved == 0:
+                # every fragment is resolved: report to the user, once
+                self.conn.pending_fragments.pop(self.frag_id, None)
+                callback, self.user_callback = self.user_callback, None
+                if callback:
+                    callback(all(self.acks))
 
     @staticmethod
     def parsePayload(payload):
